@@ -45,6 +45,28 @@ CHECKS["C06"] = dict(level="exploration", engine="sdoc-explorer",
    text="Every operator context (nested to depth 2, 3 in the thorough tier) around a reference closing a cycle of length 1-3 through rules of every modifier, every small WHITESPACE/COMMENT body, the plain size-ordered corpus and acyclic controls: if pest accepts the grammar, S_doc (whose cycle criterion is exact for stack-free grammars) must not diverge on any rule and input up to the bound, and each divergence is confirmed on the real engine (stack overflow / timeout in a child process) before it is reported; every grammar satisfying the guarded predicate of DESIGN Appendix C must be accepted.",
    note="Stack-free grammars only (as the property states); rejection for the unrelated grammar-extras rule 'tags on silent rules' is excluded and counted.",
    design_ref="§3 C06, Appendix C")
+CHECKS.update({
+ "C10": dict(level="exploration", engine="text-enumerator",
+   technique="complete enumeration of all strings up to a length bound over {a, é, 😀, LF, CR, TAB} x all offsets x all offset pairs against direct references; rendered errors parsed back",
+   text="For every string up to the bound (quick 7 / thorough 8 characters for offsets, 6 / 7 for offset pairs) every byte offset 0..=len+1 and every pair of offsets (including unordered and non-boundary ones) is checked: Position::new / Span::new succeed exactly on (ordered) boundaries; line/column from Position, from Pair (LineIndex) and from Error equal the newline/character counts; line_of, lines(), lines_span() equal the reference lines; Display of errors built from every position and span never panics and, parsed back, shows the reference line number, that line's text and the ^ marker under the reported column.",
+   note="Closed-interval reading of 'lines that overlap the span'; CR/LF removal or visualisation in the displayed line is accepted; for multi-line spans only header, first line and absence of panics are judged.",
+   design_ref="§3 C10"),
+ "C13": dict(level="exploration", engine="pratt-enumerator",
+   technique="exhaustive enumeration of operator tables x well-formed token sequences against an independent shunting-yard",
+   text="All tables of <= 4 operators over {prefix, postfix, infix-L, infix-R} x 3 levels (917 tables incl. mixed associativity within a level) x every well-formed sequence up to 9 (quick) / 12 (thorough) tokens (+2 for tables of <= 2 operators): PrattParser, ConstPrattParser<1..4> and, on infix-only single-associativity tables, PrecClimber must produce exactly the position-labelled S-expression of a classical two-stack shunting-yard using the statement's binding powers.",
+   note="Ill-formed sequences are out of scope (documented panics).",
+   design_ref="§3 C13"),
+ "C16": dict(level="exploration", engine="unicode-enumerator",
+   technique="complete enumeration of all 1,112,064 scalar values x all advertised property names x access paths",
+   text="Every scalar value: exactly one two-letter category, each of the 8 groups equals the union of its members, scripts pairwise disjoint, function == by_name for all 259 names; every name resolves and validates. Parser paths (pest_vm, and a parser derived at harness build time with one rule per name): thorough = every scalar x every name; quick = both neighbours of every change point of every property, a set on which any two distinct tables differ.",
+   note="Table contents are not compared with an external UCD copy (none is available offline); the property's structural statements are the oracle.",
+   design_ref="§3 C16"),
+ "C18": dict(level="exploration", engine="json-enumerator",
+   technique="exhaustive enumeration of fragment sequences and character-level sub-languages against an RFC 8259 recursive-descent recogniser that also yields the expected pair tree",
+   text="All sequences of <= 4 (quick) / 5 (thorough) fragments over a 38-fragment JSON alphabet, <= 6/7 structural fragments, and all strings over the number, string and nesting sub-alphabets up to 8/6/7 (quick) and 10/8/9 (thorough) characters: JsonParser accepts exactly when the recogniser does and returns exactly its tree (json(value(..), EOI) with object/pair/array/string/number/bool/null and byte spans).",
+   note="Depth bounded by enumeration length.",
+   design_ref="§3 C18"),
+})
 PENDING = {}
 
 checks = []
@@ -76,6 +98,10 @@ m = {
  },
  "engines": [
    {"name": "history-bfs", "path": "/verif/harness/c11", "serves_properties": ["C11"], "kind_free_text": "explicit-state breadth-first search over operation histories of the real object, replay-rebuilt, lock-step reference model"},
+   {"name": "text-enumerator", "path": "/verif/harness/c10", "serves_properties": ["C10"], "kind_free_text": "complete enumeration of short strings x offsets x offset pairs on the real Position/Span/LineIndex/Error code against direct references"},
+   {"name": "pratt-enumerator", "path": "/verif/harness/c13", "serves_properties": ["C13"], "kind_free_text": "exhaustive operator tables x token sequences on the real PrattParser/ConstPrattParser/PrecClimber against a shunting-yard reference"},
+   {"name": "unicode-enumerator", "path": "/verif/harness/c16", "serves_properties": ["C16"], "kind_free_text": "complete enumeration of scalar values x property names x access paths (function, by_name, VM, derived parser)"},
+   {"name": "json-enumerator", "path": "/verif/harness/c18", "serves_properties": ["C18"], "kind_free_text": "exhaustive fragment / character sequences on the real derived JsonParser against an RFC 8259 recogniser"},
    {"name": "sdoc-explorer", "path": "/verif/harness/sdoc", "serves_properties": ["C01", "C05", "C06", "C08", "C12", "C15"], "kind_free_text": "bounded exhaustive grammar x input explorer: real pest_meta front-end + optimizer + pest_vm versus the S_doc reference evaluator; sharded over single-threaded worker processes with a watchdog; built twice (default, grammar-extras)"},
  ],
  "checks": checks,
